@@ -51,25 +51,31 @@ type histSc struct {
 
 const spare = 48 // spare capacity behind the caller's bytes; a decoder that appends to its input writes here
 
-var canary = func() []byte {
+// what lies behind the caller's bytes is not part of the input: the canary differs from call to call (variant v),
+// so a decoder that reads past the end of its input returns something that depends on the history
+func canaryOf(v int) []byte {
 	b := make([]byte, spare)
 	for i := range b {
-		b[i] = byte(0xC3 ^ i)
+		b[i] = byte(0xC3 ^ i ^ (v * 0x35))
 	}
 	return b
-}()
+}
 
 // callerBuf returns the caller's buffer: the bytes, with `spare` canary bytes of capacity behind them.
-func callerBuf(d []byte) []byte {
+func callerBuf(d []byte) []byte { return callerBufV(d, 0) }
+
+func callerBufV(d []byte, v int) []byte {
 	b := make([]byte, len(d)+spare)
 	copy(b, d)
-	copy(b[len(d):], canary)
+	copy(b[len(d):], canaryOf(v))
 	return b[:len(d)]
 }
 
-func bufIntact(b, d []byte) bool {
+func bufIntact(b, d []byte) bool { return bufIntactV(b, d, 0) }
+
+func bufIntactV(b, d []byte, v int) bool {
 	full := b[:len(d)+spare]
-	return bytes.Equal(full[:len(d)], d) && bytes.Equal(full[len(d):], canary)
+	return bytes.Equal(full[:len(d)], d) && bytes.Equal(full[len(d):], canaryOf(v))
 }
 
 func decOpts(lazy, dsad bool, own string) gopacket.DecodeOptions {
@@ -86,6 +92,10 @@ type callRes struct {
 
 // doCall: one NewPacket on buf (the caller's buffer holding it.data), digest of the result.
 func doCall(it item, buf []byte, lazy, dsad bool, own string, checkIntact bool) callRes {
+	return doCallV(it, buf, lazy, dsad, own, checkIntact, 0)
+}
+
+func doCallV(it item, buf []byte, lazy, dsad bool, own string, checkIntact bool, v int) callRes {
 	var r callRes
 	msg, site, p := vh.Guard(func() {
 		pk := gopacket.NewPacket(buf, it.first, decOpts(lazy, dsad, own))
@@ -101,7 +111,7 @@ func doCall(it item, buf []byte, lazy, dsad bool, own string, checkIntact bool) 
 	}
 	r.intact = true
 	if checkIntact {
-		r.intact = bufIntact(buf, it.data)
+		r.intact = bufIntactV(buf, it.data, v)
 	}
 	return r
 }
@@ -131,10 +141,14 @@ type universe struct {
 	fx      []corpus.Fixture
 	byFirst map[gopacket.LayerType][]int
 	csum    []int // fixtures with at least one checksummed layer above the network layer
+	// fixtures by the type of a checksummed layer they contain (for header-only inputs: the checksum is then
+	// computed over a header whose payload is empty)
+	csumBy    map[gopacket.LayerType][]int
+	csumTypes []gopacket.LayerType
 }
 
 func loadUniverse() *universe {
-	u := &universe{fx: corpus.Load(), byFirst: map[gopacket.LayerType][]int{}}
+	u := &universe{fx: corpus.Load(), byFirst: map[gopacket.LayerType][]int{}, csumBy: map[gopacket.LayerType][]int{}}
 	for i, f := range u.fx {
 		u.byFirst[f.First] = append(u.byFirst[f.First], i)
 		func() {
@@ -144,6 +158,10 @@ func loadUniverse() *universe {
 			for _, l := range p.Layers() {
 				if _, ok := l.(gopacket.LayerWithChecksum); ok {
 					n++
+					if u.csumBy[l.LayerType()] == nil {
+						u.csumTypes = append(u.csumTypes, l.LayerType())
+					}
+					u.csumBy[l.LayerType()] = append(u.csumBy[l.LayerType()], i)
 				}
 			}
 			if n >= 2 || (n == 1 && p.NetworkLayer() == nil) {
@@ -182,6 +200,21 @@ func (u *universe) variant(r *vh.Rand, f corpus.Fixture, maxlen int) item {
 		it.data = it.data[:maxlen]
 	}
 	return it
+}
+
+// headerOnly: a fixture cut behind the header of a checksummed layer, the layer type chosen uniformly
+func (u *universe) headerOnly(r *vh.Rand) (item, bool) {
+	if len(u.csumTypes) == 0 {
+		return item{}, false
+	}
+	t := u.csumTypes[r.Intn(len(u.csumTypes))]
+	ix := u.csumBy[t]
+	f := u.fx[ix[r.Intn(len(ix))]]
+	d, m := corpus.HeaderOnly(r, f, func(l gopacket.Layer) bool { return l.LayerType() == t })
+	if d == nil {
+		return item{}, false
+	}
+	return item{name: f.Name + "~" + m, data: d, first: f.First}, true
 }
 
 // pool: K inputs; mostly of one first-layer type, some near-duplicates of the first one (where hidden
@@ -287,6 +320,7 @@ type stats struct {
 	Crash      string         `json:"crash,omitempty"`
 	Own        map[string]int `json:"own,omitempty"`
 	Lens       map[string]int `json:"lens,omitempty"`
+	HeaderOnly int            `json:"header_only_inputs,omitempty"`
 }
 
 type ctx struct {
@@ -337,10 +371,10 @@ func runHist(c *ctx, u *universe, scen []histSc, pools, k int, r *vh.Rand) {
 		for _, s := range scen {
 			sc := c.next(items[0].name)
 			c.tr.Emit(vh.M{"op": "sc", "sc": sc, "sig": "", "h": s.H})
-			for _, idx := range s.H {
+			for n, idx := range s.H {
 				it := items[(idx-1)%len(items)]
-				buf := callerBuf(it.data)
-				res := doCall(it, buf, s.Opt.Lazy, s.Opt.Dsad, s.Opt.Own, true)
+				buf := callerBufV(it.data, n)
+				res := doCallV(it, buf, s.Opt.Lazy, s.Opt.Dsad, s.Opt.Own, true, n)
 				for _, ev := range callEvent(sc, idx, it, s.Opt.Lazy, s.Opt.Dsad, s.Opt.Own, "seq", 0, res) {
 					c.tr.Emit(ev)
 				}
@@ -467,6 +501,12 @@ func runShare(c *ctx, u *universe, scen []histSc, g, rounds int, r *vh.Rand) {
 			it = u.pool(r, 1, r.Intn(10) < 7)[0]
 			if len(it.data) > 0 {
 				break
+			}
+		}
+		if r.Intn(5) == 0 {
+			if h, ok := u.headerOnly(r); ok {
+				it = h
+				c.st.HeaderOnly++
 			}
 		}
 		own := owns[r.Intn(3)]
